@@ -16,7 +16,7 @@
 From Coq Require Import String Ascii List Bool ZArith Permutation.
 From LC Require Import Common NumDefs XmlDefs EntTreeDefs PrintDefs LoadDefs RoundtripSpec Load1xDefs To1xDefs
      RoundtripEncProofs TransformSimProofs TransformProofs TransformHoistProofs Load1xProofs Drop1xSpec Drop1xProofs
-     MathNsDefs MathNsProofs.
+     MathNsDefs MathNsProofs TransformImageProofs.
 From LCGen Require RuleTable.
 Import ListNotations.
 Local Open Scope string_scope.
@@ -224,6 +224,46 @@ Print Assumptions C14_math_rewrite_shape.
 Theorem C14_math_roundtrip : forall v x, math_ok1 x = true -> rewrite_math (conv_math v x) = x.
 Proof. intros. now apply TransformSimProofs.math_sim. Qed.
 Print Assumptions C14_math_roundtrip.
+
+(** * transform_preserves_everything_else: content preservation at full strength.  For EVERY CellML 1.0 / 1.1 document tree
+      without CellML 2.0-namespaced reset / encapsulation / connection elements ([pure_1x]; any children in any order, any
+      attributes, any foreign content, valid or not) the transformed model IS the image of the document
+      ([document_image]: units = model-level, component-level and imported units in document order; one component per 1.x
+      component element, with name / id from its attributes, variables = the images of its variable children in order, math =
+      its rewritten math children in order and nothing else; hierarchy = loadEncapsulation on these components and the FIRST
+      encapsulation group; equivalences = loadConnection folded over the 1.x connection elements) and the issue list IS
+      [document_issues]: the transformation message, the issues of the images, exactly ONE MESSAGE for every other child
+      element of the model or of a component (rdf:RDF, reaction, documentation, ...: they contribute nothing else), nothing
+      for a containment group, then the issues of the encapsulation, of the connections and of unit linking *)
+Theorem C14_transform_preserves_everything_else : forall E fx fi fd x,
+  is_cellml20 "model" x = false -> is_1x "model" x = true -> pure_1x x = true ->
+  load1x E fx fi fd false x = (document_image E fx fi fd x, document_issues E fx fi fd x).
+Proof.
+  intros E fx fi fd x H1 H2 H3. rewrite (surjective_pairing (load1x E fx fi fd false x)).
+  f_equal; [now apply TransformImageProofs.transform_document_image|now apply TransformImageProofs.transform_document_issues].
+Qed.
+Print Assumptions C14_transform_preserves_everything_else.
+
+(** non-vacuity: the example documents with metadata, a reaction and an import are pure; their image *)
+Example C14_image_example :
+  pure_1x drop_example = true /\ pure_1x foreign_example = true /\ pure_1x groups_example = true
+  /\ map (fun c => (cname c, map v_name (c_vars (shell c)))) (m_comps (document_image E0 true true true drop_example))
+     = [("c", ["x"]); ("i", [])]
+  /\ document_issues E0 true true true drop_example = [msg; msg; msg; msg; msg; msg].
+Proof. repeat split; vm_compute; reflexivity. Qed.
+Print Assumptions C14_image_example.
+
+(** the hypothesis is needed: a CellML 2.0 reset element inside a 1.x component IS loaded (it is not part of the image) *)
+Example C14_image_pure_needed :
+  let x := Elem CELLML_1_0_NS "model" [at_ "name" "m"]
+                [Elem CELLML_1_0_NS "component" [at_ "name" "c"]
+                      [Elem CELLML_1_0_NS "variable" [at_ "name" "v"; at_ "units" "second"] [];
+                       Elem CELLML_2_0_NS "reset" [at_ "variable" "v"; at_ "test_variable" "v"; at_ "order" "1"] []]] in
+  pure_1x x = false
+  /\ map (fun c => length (c_resets (shell c))) (m_comps (fst (load1x E0 true true true false x))) = [1]
+  /\ map (fun c => length (c_resets (shell c))) (m_comps (document_image E0 true true true x)) = [0].
+Proof. repeat split; vm_compute; reflexivity. Qed.
+Print Assumptions C14_image_pure_needed.
 
 (** * the declaration layer (MathNsDefs: elements with prefixes and xmlns declarations, as libxml2 holds them): for
       EVERY math element of a 1.x component — whatever prefix names the legacy namespace, wherever it is declared (on math,
